@@ -157,7 +157,10 @@ func applyRemovals(actions []pruneAction, dryRun bool, out io.Writer) error {
 	return errors.Join(errs...)
 }
 
-func indexRepositories(repositories []repositorySpec, opts gitindex.Options, out io.Writer) error {
+// indexRepositories indexes the repositories, or with opts.DryRun reports what
+// would be indexed. pendingRemovals holds the shards a dry run has announced
+// for removal but left in place.
+func indexRepositories(repositories []repositorySpec, opts gitindex.Options, pendingRemovals map[string]struct{}, out io.Writer) error {
 	var errs []error
 	for _, repo := range repositories {
 		repoOpts := opts
@@ -170,6 +173,12 @@ func indexRepositories(repositories []repositorySpec, opts gitindex.Options, out
 		if err != nil {
 			errs = append(errs, fmt.Errorf("index %q from %s: %w", repo.Name, repo.Source, err))
 			continue
+		}
+		if repoOpts.DryRun && !updated {
+			// The shard that makes this repository look up to date is about to
+			// be removed; the real run then has to index it again.
+			_, shard := repoOpts.BuildOptions.IndexState()
+			_, updated = pendingRemovals[shard]
 		}
 		if repoOpts.DryRun && updated {
 			fmt.Fprintf(out, "Would index %q from %s\n", repo.Name, repo.Source)
